@@ -51,6 +51,7 @@ type Exec struct {
 	hooks     *seqTheory
 	modelSort map[string]string
 	modelType map[string]types.Type
+	prov      map[string]string
 }
 
 func (x *Exec) undecide(f string, a ...any) {
@@ -66,7 +67,7 @@ func (x *Exec) oblige(st *State, kind, name, goal string, pos ast.Node) *Obligat
 	if n := x.nameCnt[name]; n > 1 {
 		full = fmt.Sprintf("%s~%d", full, n)
 	}
-	o := &Obligation{Name: full, Kind: kind, PC: append([]string(nil), st.pc...), Goal: goal, Unit: x.unit.Name, Expect: "unsat"}
+	o := &Obligation{Name: full, Kind: kind, PC: append([]string(nil), st.pc...), Goal: goal, Unit: x.unit.Name, Expect: "unsat", Info: map[string]string{"path": strings.Join(st.trace, " ")}}
 	if pos != nil {
 		o.Pos = x.prog.pos(pos)
 	}
@@ -354,8 +355,10 @@ func (x *Exec) stmt(st *State, s ast.Stmt, fr *frame, k func(*State)) {
 			x.cond(st, s.Cond, func(st *State, c string) {
 				st1 := st.clone()
 				st1.assume(c)
+				st1.trace = append(st1.trace, "if@"+x.prog.pos(s)+":T")
 				x.stmt(st1, s.Body, fr, k)
 				st.assume(sNot(c))
+				st.trace = append(st.trace, "if@"+x.prog.pos(s)+":F")
 				if s.Else != nil {
 					x.stmt(st, s.Else, fr, k)
 				} else {
@@ -721,6 +724,7 @@ func (x *Exec) typeSwitch(st *State, s *ast.TypeSwitchStmt, fr *frame, k func(*S
 				c := sOr(alts...)
 				st1 := st.clone()
 				st1.assume(c)
+				st1.trace = append(st1.trace, "case@"+x.prog.pos(cc))
 				bindIn(st1, cc, single)
 				x.caseBody(st1, cc, inner, k)
 				st.assume(sNot(c))
@@ -906,6 +910,9 @@ func (x *Exec) havocLoop(st *State, body ast.Node, extra []*types.Var) {
 		x.noteRead(st, t)
 		x.ifaceWellTyped(st, t, v.Type())
 	}
+	if heap && x.loopIsPure(body) {
+		heap = false
+	}
 	if heap {
 		clk := st.clk
 		nclk := x.d.fresh("clk", "Int")
@@ -920,6 +927,64 @@ func (x *Exec) havocLoop(st *State, body ast.Node, extra []*types.Var) {
 		}
 		x.havocModels(st, clk, nil, true)
 	}
+}
+
+// loopIsPure: the loop body writes no heap location and every call in it is a
+// static call of a function whose contract has no modifies clause (so nothing
+// but freshly allocated objects can change).
+func (x *Exec) loopIsPure(body ast.Node) bool {
+	pure := true
+	ast.Inspect(body, func(n ast.Node) bool {
+		if !pure {
+			return false
+		}
+		switch y := n.(type) {
+		case *ast.FuncLit:
+			return false
+		case *ast.AssignStmt:
+			for _, l := range y.Lhs {
+				if _, ok := ast.Unparen(l).(*ast.Ident); !ok {
+					pure = false
+				}
+			}
+		case *ast.IncDecStmt:
+			if _, ok := ast.Unparen(y.X).(*ast.Ident); !ok {
+				pure = false
+			}
+		case *ast.CallExpr:
+			if tv, ok := x.info.Types[y.Fun]; ok && tv.IsType() {
+				return true
+			}
+			fun := ast.Unparen(y.Fun)
+			var fn *types.Func
+			switch f := fun.(type) {
+			case *ast.Ident:
+				if _, isB := x.info.Uses[f].(*types.Builtin); isB {
+					if f.Name == "append" {
+						return true
+					}
+					return true
+				}
+				fn, _ = x.info.Uses[f].(*types.Func)
+			case *ast.SelectorExpr:
+				if sel := x.info.Selections[f]; sel != nil {
+					fn, _ = sel.Obj().(*types.Func)
+				} else {
+					fn, _ = x.info.Uses[f.Sel].(*types.Func)
+				}
+			}
+			if fn == nil {
+				pure = false
+				return false
+			}
+			spec, _ := x.specOfFunc(fn.Origin())
+			if spec == nil || len(spec.clauses("modifies")) > 0 || len(spec.clauses("refines")) > 0 {
+				pure = false
+			}
+		}
+		return true
+	})
+	return pure
 }
 
 func (x *Exec) forStmt(st *State, s *ast.ForStmt, fr *frame, k func(*State)) {
@@ -1035,6 +1100,7 @@ func (x *Exec) rangeStmt(st *State, s *ast.RangeStmt, fr *frame, k func(*State))
 			ev := x.readElem(st, es, sl, idx)
 			ev.T = et
 			x.ifaceWellTyped(st, ev, et)
+			x.rigidLinkElem(st, sl, idx, ev)
 			setVar(s.Value, ev)
 		}
 		backEdge := func(st *State) {
@@ -1460,6 +1526,7 @@ func (x *Exec) selector(st *State, e *ast.SelectorExpr, k func(*State, Term)) {
 				t := x.readField(st, fieldKeyOf(named, f), fs, base.S)
 				t.T = f.Type()
 				x.ifaceWellTyped(st, t, f.Type())
+				x.rigidLinkField(st, fieldKeyOf(named, f), base.S, t)
 				k(st, t)
 				return
 			}
@@ -1496,6 +1563,7 @@ func (x *Exec) index(st *State, e *ast.IndexExpr, k func(*State, Term)) {
 				t := x.readElem(st, es, sl, idx.S)
 				t.T = u.Elem()
 				x.ifaceWellTyped(st, t, u.Elem())
+				x.rigidLinkElem(st, sl, idx.S, t)
 				k(st, t)
 			})
 		})
